@@ -103,7 +103,7 @@ impl FromDict for Function {
                     _ => bail!("unknown dimensions")
                 };
                 let mut parts = Vec::with_capacity(n_dim);
-                let input_range = (raw.domain[0], raw.domain[1]);
+                let input_range = (*try_opt!(raw.domain.get(0)), *try_opt!(raw.domain.get(1)));
                 for dim in 0 .. n_dim {
                     let output_range = (
                         raw.range.as_ref().and_then(|r| r.get(2*dim).cloned()).unwrap_or(-INFINITY),
@@ -137,7 +137,7 @@ impl Object for Function {
                         let s = std::str::from_utf8(&data)?;
                         let func = PsFunc::parse(s)?;
                         let info = stream.info.info;
-                        Ok(Function::PostScript { func, domain: info.domain, range: info.range.unwrap() })
+                        Ok(Function::PostScript { func, domain: info.domain, range: try_opt!(info.range) })
                     },
                     0 => {
                         let info = stream.info.info;
@@ -393,12 +393,11 @@ impl PsFunc {
                 PsOp::Roll => {
                     let j = stack.pop().ok_or(PostScriptError::StackUnderflow)? as isize;
                     let n = stack.pop().ok_or(PostScriptError::StackUnderflow)? as usize;
-                    let start = stack.len() - n;
+                    let start = stack.len().checked_sub(n).ok_or(PostScriptError::StackUnderflow)?;
                     let slice = &mut stack[start..];
-                    if j > 0 {
-                        slice.rotate_right(j as usize);
-                    } else {
-                        slice.rotate_left(-j as usize);
+                    if n > 0 {
+                        // rolling by j is rolling by j modulo n
+                        slice.rotate_right(j.rem_euclid(n as isize) as usize);
                     }
                 }
                 PsOp::Index => {
@@ -432,6 +431,9 @@ impl PsFunc {
         let start = s.find('{').ok_or(PdfError::PostScriptParse)?;
         let end = s.rfind('}').ok_or(PdfError::PostScriptParse)?;
 
+        if end < start {
+            return Err(PdfError::PostScriptParse);
+        }
         let ops: Result<Vec<_>, _> = s[start + 1 .. end].split_ascii_whitespace().map(PsOp::parse).collect();
         Ok(PsFunc { ops: ops? })
     }
